@@ -88,10 +88,9 @@ func H_C01_scalars() {
 	v := zScalarsBase()
 	k := vChoice("field", 16)
 	zScalarsSym(v, k)
-	if vTier() == 1 {
-		k2 := vChoice("field2", 16)
-		vAssume(k2 > k)
-		zScalarsSym(v, k2)
+	if vTier() == 1 && k < 15 {
+		// thorough: also the next field, so that every adjacent pair of wire forms is crossed
+		zScalarsSym(v, k+1)
 	}
 	rtZScalars(v)
 }
